@@ -102,29 +102,39 @@ def h_value(ctx, unit, ctor):
             ctx.claim("absolute[%s] bare value" % unit, ctx.close(r0, resolve(ctx, env, a, unit), 1e-6))
 
 
-def h_percent_ref(ctx, refkind):
-    """percentage against a reference supplied as number / string with unit / Length"""
+def h_percent_ref(ctx, unit, how):
+    """percentage against a reference supplied as number / string with any unit / Length"""
     S = ctx.S
     env = mkenv(ctx)
     a = ctx.real("a", -V, V)
     r = ctx.real("r", 1e-3, V)
     kw = kwargs(env)
-    if refkind == "number":
+    if how == "number":
         kw["relative_length"] = r
         exp = a * r / 100
-    elif refkind in ("str_in", "len_in"):
-        kw["relative_length"] = "%sin" % r if refkind == "str_in" else S.Length("%sin" % r)
-        exp = a * r * env["ppi"] / 100
-    elif refkind in ("str_px", "len_px"):
-        kw["relative_length"] = "%spx" % r if refkind == "str_px" else S.Length(r, "px")
-        exp = a * r / 100
     else:
-        kw["relative_length"] = "%spt" % r if refkind == "str_pt" else S.Length(r, "pt")
-        exp = a * r * 4 / 3 / 100
+        kw["relative_length"] = "%s%s" % (r, unit) if how == "str" else S.Length(r, unit)
+        if unit == "%":
+            # a percentage of a percentage has no further reference here: may stay symbolic
+            v = S.Length("%s%%" % a).value(**kw)
+            ctx.claim("percent of percent is a Length or the product", isinstance(v, S.Length) or isnum(v))
+            return
+        exp = a * resolve(ctx, env, r, unit) / 100
     v = S.Length("%s%%" % a).value(**kw)
-    ctx.claim("percent/%s is a number" % refkind, isnum(v))
+    tag = "percent/%s/%s" % (how, unit or "none")
+    ctx.claim(tag + " is a number", isnum(v))
     if isnum(v):
-        ctx.claim("percent/%s" % refkind, ctx.close(v, exp, 1e-6))
+        ctx.claim(tag, ctx.close(v, exp, 2e-6))
+    # with the information for the reference's own unit withheld, the result must not be a guessed number
+    need = {"in": "ppi", "cm": "ppi", "mm": "ppi", "em": "font_size", "ex": "font_height",
+            "vw": "viewbox", "vh": "viewbox", "vmin": "viewbox", "vmax": "viewbox"}
+    if how != "number" and unit in need:
+        kw2 = dict(kw)
+        del kw2[need[unit]]
+        v2 = S.Length("%s%%" % a).value(**kw2)
+        # (0% of anything is 0 whatever the unit: a number is legitimate exactly then)
+        ctx.claim(tag + " unresolved reference stays a Length",
+                  True if isinstance(v2, S.Length) else (ctx.and_(ctx.eq(a, 0), ctx.eq(v2, 0)) if isnum(v2) else False))
 
 
 def _exact_pair(u1, u2):
@@ -240,8 +250,10 @@ def harnesses(tier):
         hs.append({"name": "value/%s/string" % (u or "none"), "fn": "h_value", "params": {"unit": u, "ctor": "string"}})
         hs.append({"name": "value/%s/pair" % (u or "none"), "fn": "h_value", "params": {"unit": u, "ctor": "pair"}})
         hs.append({"name": "unary/%s" % (u or "none"), "fn": "h_unary", "params": {"unit": u}})
-    for rk in ("number", "str_in", "len_in", "str_px", "len_px", "str_pt", "len_pt"):
-        hs.append({"name": "percent_ref/" + rk, "fn": "h_percent_ref", "params": {"refkind": rk}})
+    hs.append({"name": "percent_ref/number", "fn": "h_percent_ref", "params": {"unit": "", "how": "number"}})
+    for u in UNITS:
+        for how in ("str", "len"):
+            hs.append({"name": "percent_ref/%s/%s" % (how, u or "none"), "fn": "h_percent_ref", "params": {"unit": u, "how": how}})
     for u1 in UNITS:
         for u2 in UNITS:
             hs.append({"name": "binary/%s,%s" % (u1 or "none", u2 or "none"), "fn": "h_binary", "params": {"u1": u1, "u2": u2}})
